@@ -35,7 +35,9 @@ def _single(draw):
                 op['by'] = sorted(draw(st.sets(st.integers(0, accum - 1), max_size=accum)))
             ops.append(op)
     pd = draw(st.sampled_from(['float32', 'float32', 'float64']))
-    return {'kind': 'single', 'bystander': bystander, 'spec': draw(gens.model_spec(max_layers=3, max_dim=7, max_out=6)),
+    # mixed precision as documented (examples/vision): the forward pass runs inside torch.autocast, usually with a loss scale
+    autocast = draw(st.sampled_from([None, None, None, None, 'bfloat16'])) if pd == 'float32' else None
+    return {'kind': 'single', 'autocast': autocast, 'bystander': bystander, 'spec': draw(gens.model_spec(max_layers=3, max_dim=7, max_out=6)),
             'method': 'eigen', 'prediv': False, 'in_hook': draw(st.booleans()), 'accum': accum, 'N': draw(st.integers(1, 5)),
             'style': draw(gens.style_strategy()), 'param_dtype': pd,
             'factor_dtype': draw(st.sampled_from([None, None, 'float32', 'float64', 'bfloat16'])),
@@ -74,7 +76,7 @@ class C04(Prop):
     rule = ('Hypothesis draws (kind "single") histories of 1-8 train/eval iterations on a model of 1-3 layers (linear incl. N-d inputs, conv2d), '
             'accumulation 1-3 with unequal micro-batch sizes, factor update in hook or in step, factor_update_steps constant or table, decay '
             'constant / table / exponential-averaging schedule, loss scale via a grad_scaler callable, parameter dtype float32/float64, factor '
-            'dtype None/float32/float64/bfloat16; and (kind "multi") the same on W in {2,3,4} simulated ranks with every divisor as worker '
+            'dtype None/float32/float64/bfloat16, forward passes optionally inside torch.autocast(bfloat16) (the documented mixed-precision use); and (kind "multi") the same on W in {2,3,4} simulated ranks with every divisor as worker '
             'count, bucketed or not, symmetric or not, drawn schedule. Oracle: the factor recurrence of vkit/refkfac fed with layer inputs and '
             'output gradients recorded by the harness on a twin model without K-FAC, compared with state_dict() factors after every step on '
             'every rank (relative Frobenius tolerance 16 (updates+1) max(1, sqrt(rows)) eps(factor dtype)); exact symmetry; PSD; dtype == '
@@ -87,7 +89,7 @@ class C04(Prop):
     examples = {'quick': 200, 'thorough': 700}
     shards = {'quick': 4, 'thorough': 16}
     shrink_budget_s = {'quick': 30.0, 'thorough': 180.0}
-    required_labels = {'quick': ['nontrivial=True', 'kind=single', 'kind=multi', 'loss_scale=True', 'factor_dtype=bfloat16', 'dynamic_loss_scale=True'],
+    required_labels = {'quick': ['nontrivial=True', 'kind=single', 'kind=multi', 'loss_scale=True', 'factor_dtype=bfloat16', 'dynamic_loss_scale=True', 'autocast=True'],
                        'thorough': ['nontrivial=True', 'kind=single', 'kind=multi', 'loss_scale=True', 'factor_dtype=bfloat16', 'factor_dtype=float64']}
 
     def strategy(self, tier):
@@ -102,7 +104,7 @@ class C04(Prop):
 
     def _labels(self, case):
         return {'kind': case['kind'], 'in_hook': case['in_hook'], 'accum': case['accum'], 'factor_dtype': str(case['factor_dtype']),
-                'loss_scale': case['loss_scale'] is not None, 'dynamic_loss_scale': isinstance(case['loss_scale'], dict), 'bystander': bool(case.get('bystander')), 'has_conv': any(L['t'] == 'conv' for L in case['spec']['layers']),
+                'loss_scale': case['loss_scale'] is not None, 'dynamic_loss_scale': isinstance(case['loss_scale'], dict), 'bystander': bool(case.get('bystander')), 'autocast': bool(case.get('autocast')), 'has_conv': any(L['t'] == 'conv' for L in case['spec']['layers']),
                 'decay_kind': 'const' if not isinstance(case['hp']['factor_decay'], dict) else list(case['hp']['factor_decay'])[0]}
 
     def _single(self, case):
